@@ -43,7 +43,7 @@
 From Coq Require Import List NArith Bool Arith.
 From Atlas Require Import Base.Bytes Lint.LintModel Lint.LintSpec Lint.LintProofs Lint.LintFileProofs Lint.LintSoundProofs Lint.LintDropProofs Lint.LintRefute
   Lint.LintNolintModel Lint.LintNolintProofs Lint.LintNolintRefute
-  Lint.LintGenModel Lint.LintGenSpec Lint.LintGenProofs Lint.LintGenRefute Lint.LintEnvModel Lint.LintEnvProofs.
+  Lint.LintGenModel Lint.LintGenSpec Lint.LintGenProofs Lint.LintGenRefute Lint.LintEnvModel Lint.LintEnvProofs Lint.LintHistProofs.
 Import ListNotations.
 
 (** 1. destructive.Analyze, exactly: DS102 at [p] naming [n] iff a statement at [p] carries DropTable n
@@ -634,6 +634,40 @@ Theorem C18_window_files :
 Proof. exact lint_window. Qed.
 Print Assumptions C18_window_files.
 
+(** * Round 5 -- temporary objects of the SQLite-derived change lists (Lint/LintHistProofs.v) *)
+
+(** 45. The span states of rounds 1-2 ([table_state], [column_state]) are end states of add/drop histories too. *)
+Theorem C18_states_are_histories :
+  forall cl : list schange,
+  (forall n, table_state cl n = state_of (tab_hist cl n)) /\
+  (forall t c, column_state cl t c = state_of (col_hist cl t c)).
+Proof. exact states_are_histories. Qed.
+Print Assumptions C18_states_are_histories.
+
+(** 46. Temporary objects, tables AND columns, on ANY analysed list (so also after the pre-pass): a name whose history
+    is "created in this list and dropped after its last creation" is named by no DS102 / left out of every DS103 of its
+    table.  (The column half was tie-only until round 5; "created once" is no longer needed.) *)
+Theorem C18_sound_temp_objects :
+  forall cl : list schange,
+  (forall n, temp_history (tab_hist cl n) -> forall p, ~ In (mkDiag DS102 p [n]) (Analyze cl)) /\
+  (forall t c, temp_history (col_hist cl t c) ->
+     forall T cs, t_name T = t -> ~ In c (dropped_names (loadSpans cl) T cs)).
+Proof. exact sound_temp_objects. Qed.
+Print Assumptions C18_sound_temp_objects.
+
+(** 47. The bridge from statements, tables: a table name that exists neither before the file nor after it -- created
+    and dropped inside the file, any number of times, by whatever statements -- is never named by a DS102
+    (files on which the rebuild pre-pass does not fire).  Columns: still tie only (a DROP TABLE ends the columns of
+    the table without column events, the invariant needs the table level too). *)
+Theorem C18_sound_temp_table_file :
+  forall (r0 : realm) (stmts : list pstmt) (rs : list realm) (n : name),
+  run r0 stmts rs ->
+  rewriteTemp (changes_of r0 stmts rs) = changes_of r0 stmts rs ->
+  ~ has_table r0 n -> ~ has_table (last rs r0) n ->
+  forall p, ~ In (mkDiag DS102 p [n]) (analyze_file (changes_of r0 stmts rs)).
+Proof. exact sound_temp_table_file. Qed.
+Print Assumptions C18_sound_temp_table_file.
+
 (* non-vacuity, round 5 *)
 Example ex_generic_multi :
   Analyze_g false w_multi =
@@ -665,3 +699,22 @@ Example ex_window :
   /\ lint_env [] fl (mkEnvCfg 0 [109]%N []) = EnvExclusive
   /\ lint_env [] fl (mkEnvCfg 1 [] []) = EnvLint (LintReport [] false).
 Proof. vm_compute. repeat split; reflexivity. Qed.
+
+Example ex_temp_objects :
+  let T := mkTab n_tmp [c_id; c_a] [] in
+  let cl := [mkSC 0 [AddTableC T]; mkSC 20 [ModifyTableC T [DropColumnC c_a]]; mkSC 50 [DropTableC T]] in
+  tab_hist cl n_tmp = [true; false] /\ col_hist cl n_tmp (c_name c_a) = [true; false]
+  /\ temp_history (tab_hist cl n_tmp) /\ Analyze cl = []
+  /\ Analyze [mkSC 20 [ModifyTableC T [DropColumnC c_a]]; mkSC 50 [DropTableC T]]
+     = [mkDiag DS103 20 [c_name c_a]; mkDiag DS102 50 [n_tmp]].
+Proof.
+  vm_compute. repeat split; try reflexivity.
+  exists [], [false]. repeat split; [discriminate].
+Qed.
+Example ex_temp_table_file :
+  let stmts := [(0, CreateTable n_tmp [c_id]); (25, DropTable n_tmp); (40, CreateTable n_tmp [c_id; c_a]); (70, DropTable n_tmp)]%N in
+  run w_r0 stmts (states_of w_r0 stmts) /\ ~ has_table w_r0 n_tmp /\ ~ has_table (last (states_of w_r0 stmts) w_r0) n_tmp
+  /\ analyze_file (changes_of w_r0 stmts (states_of w_r0 stmts)) = [].
+Proof.
+  vm_compute. repeat split; try reflexivity; intros H; apply H; reflexivity.
+Qed.
